@@ -7,6 +7,8 @@ import (
 	"math/big"
 	"time"
 
+	"github.com/tendermint/tendermint/abci/types"
+
 	"github.com/Oneledger/protocol/data/balance"
 	"github.com/Oneledger/protocol/data/evidence"
 	"github.com/Oneledger/protocol/data/keys"
@@ -27,7 +29,7 @@ type c19Req struct {
 //
 // sv:bounds request req1 against validator M with 3 possible voters (distinct addresses, as Vote() maintains), each having voted yes, no or not at all; optionally a second request req2 against another validator N with 2 possible voters, inserted before or after req1 in the tracker; activeCount in 1..4; evidence options of the devnet genesis (vote share 50/100, allegation share 50/100, penalty 30/100, bounty 50/100); M's stake S (whole OLT) symbolic, 0 <= S < 2^40, N's stake 1000, N's held by its own address; M's stake account is M's own address or a separate account (then M's own address also holds a symbolic stake with a validator whose address is that account); M's stake address also holds a symbolic stake 0 <= X < 2^40 with a third validator that nobody accuses; M not frozen before, or frozen for missed votes by an earlier block
 // sv:outside more than two concurrent requests; other option values; votes of validators that are no longer active (the code counts every recorded vote: noted, not asserted); histories
-// sv:goal for each request on its own votes, with required = ceil(active*50/100): guilty iff yes/required > 1/2, else innocent iff no/required > 1/2, else undecided; guilty implies the accused is frozen with a byzantine-fault record dated at the verdict block (whatever record it had) and cannot be released in that block, its stake records (validator total, its own locked amount) drop by exactly round(S*30/100), the bounty address receives exactly that penalty * 10^18 * 50/100, and the same amount is recorded as the delayed unstake applied to the validator record in the next block; innocent/undecided changes neither stake nor bounty nor frozen status; a decided request leaves the tracker; the stake M's stake address holds with the third validator is never touched and never enters the penalty base
+// sv:goal for each request on its own votes, with required = ceil(active*50/100): guilty iff yes/required > 1/2, else innocent iff no/required > 1/2, else undecided; guilty implies the accused is frozen with a byzantine-fault record dated at the verdict block (whatever record it had) and cannot be released in that block, its stake records (validator total, its own locked amount) drop by exactly round(S*30/100), the bounty address receives exactly that penalty * 10^18 * 50/100, and the same amount is recorded as the delayed unstake; after the next block's begin hook (real Setup) every accused validator's record equals the amount locked with it in the delegation store (two verdicts in one block: both records follow); innocent/undecided changes neither stake nor bounty nor frozen status; a decided request leaves the tracker; the stake M's stake address holds with the third validator is never touched and never enters the penalty base
 func SV_C19_tally() {
 	e := c10NewEnv(2, 1, 4)
 	S := sv.Int64("stake")
@@ -166,6 +168,19 @@ func SV_C19_tally() {
 		sv.Observe("frozen:"+r.id, frozen)
 	}
 	sv.Assert(gain.Cmp(wantGain) == 0, "bounty-receives-exactly-its-share-of-the-penalties")
+	// the next block's begin hook applies the delayed unstakes: every guilty validator's
+	// record follows the delegation store (C11: recorded stake = locked amounts)
+	e.st.Commit()
+	next := now.Add(17 * time.Second)
+	if err := e.vs.Setup(types.RequestBeginBlock{Header: types.Header{Height: height + 1, Time: next}}, nil); err != nil {
+		sv.Unreachable("next block setup")
+	}
+	for _, r := range reqs {
+		v, verr := e.vs.Get(r.m.addr)
+		T, _ := e.vctx.Delegators.GetValidatorAmount(r.m.addr)
+		sv.Assert(verr == nil && v.Staking.BigInt().Cmp(T.BigInt()) == 0, "validator-record-follows-the-locked-amounts-in-the-next-block")
+		sv.Observe("record:"+r.id, v.Staking.BigInt())
+	}
 	O, _ := e.vctx.Delegators.GetValidatorDelegationAmount(otherV, stakeM)
 	OT, _ := e.vctx.Delegators.GetValidatorAmount(otherV)
 	sv.Assert(O.BigInt().Cmp(big.NewInt(other)) == 0 && OT.BigInt().Cmp(big.NewInt(other)) == 0, "stake-lodged-with-another-validator-is-untouched")
@@ -193,3 +208,12 @@ func SV_C03_guilty_verdict() { SV_C19_tally() }
 // sv:outside as SV_C10_frozen_records
 // sv:goal as SV_C10_frozen_records
 func SV_C19_frozen_stays_out() { SV_C10_frozen_records() }
+
+// SV_C11_verdict_reaches_the_validator_record: after guilty verdicts (one or two in
+// the same block) the next block's begin hook brings every validator record back to
+// the sum of the amounts locked with it (same exploration as SV_C19_tally).
+//
+// sv:bounds as SV_C19_tally
+// sv:outside as SV_C19_tally
+// sv:goal as SV_C19_tally, in particular validator-record-follows-the-locked-amounts-in-the-next-block
+func SV_C11_verdict_reaches_the_validator_record() { SV_C19_tally() }
